@@ -114,6 +114,17 @@ func (x *Exec) Case(key string, nontrivial bool) {
 
 func (x *Exec) Sample(v interface{}) { x.sample = v }
 
+// Journal records, before a risky operation, which case is about to run. If the
+// process dies (fatal runtime error) the driver attributes the death to this case.
+func (x *Exec) Journal(sig, desc string) {
+	if x.w.TmpDir == "" {
+		return
+	}
+	v := Violation{Sig: sig, Detail: desc, Explore: x.explore, Choices: x.choices()}
+	b, _ := json.Marshal(v)
+	os.WriteFile(x.w.TmpDir+"/journal.json", b, 0o644)
+}
+
 func (x *Exec) Note(counter string, n int64) {
 	if x.notes == nil {
 		x.notes = map[string]int64{}
